@@ -6,6 +6,7 @@ claims = json.load(open(os.path.join(V, "tools", "claims.json")))
 import glob
 for f in sorted(glob.glob(os.path.join(V, "tools", "claims.d", "*.json"))):
     claims.update(json.load(open(f)))
+no_thorough = set(open(os.path.join(V, "tools", "no_thorough.txt")).read().split()) if os.path.exists(os.path.join(V, "tools", "no_thorough.txt")) else set()
 approved = set(open(os.path.join(V, "tools", "claimed.txt")).read().split())
 props = [json.loads(l) for l in open(os.path.join(V, "properties.jsonl"))]
 baseline = json.load(open("/root/.vp/BASELINE.json"))["cmd"]
@@ -17,7 +18,7 @@ for p in props:
     if c is None or c.get("not_applicable") or pid not in approved:
         na.append({"property_id": pid, "reason": (c or {}).get("not_applicable", "no Coq model of this property's kernel has been built yet in this revision (design in DESIGN.md section 6); nothing is claimed for it")})
         continue
-    checks.append({
+    checks.append({k: v for k, v in {
         "property_id": pid,
         "quick_cmd": "./check %s --tier quick" % pid,
         "thorough_cmd": "./check %s --tier thorough" % pid,
@@ -27,7 +28,7 @@ for p in props:
         "level_claimed": {"category": "proof", "text": c["text"], "design_ref": "DESIGN.md section 6, %s" % pid},
         "level_note": c["note"],
         "technique": c.get("technique", "Coq theorems on a Gallina model + differential correspondence (vm_compute) + spec oracle on the impl"),
-    })
+    }.items() if not (k == "thorough_cmd" and pid in no_thorough)})
 m = {
     "version": 1,
     "setup_cmd": "/verif/tools/setup.sh",
